@@ -362,23 +362,87 @@ def translate_fmt(pkg):
     return out
 
 
+def translate_fmt_shape(pkg):
+    """Structure of the readers (counts and widths; group "FmtShape", lenient: harmless rewrites change it)."""
+    import re
+    with open(os.path.join(pkg, "preprocess.py"), encoding="utf-8") as f:
+        tree = ast.parse(f.read())
+    with open(os.path.join(pkg, "ndl_parallel.pyx"), encoding="utf-8") as f:
+        pyx = f.read()
+    out = {}
+    # kernels: every function that opens a chunk must check the header in the canonical way right after fopen
+    code = "\n".join(ln for ln in (re.sub(r"#.*$", "", l).rstrip() for l in pyx.splitlines()) if ln.strip()) + "\n"
+    hdr = re.compile(
+        r"^(?P<i>[ \t]+)binary_file = fopen\(binary_file_path, \"rb\"\)\n"
+        r"(?P=i)read_next_int\(&magic_number, binary_file\)\n"
+        r"(?P=i)if (?:not magic_number == MAGIC_NUMBER|magic_number != MAGIC_NUMBER):\n"
+        r"(?P=i)[ \t]+fclose\(binary_file\)\n"
+        r"(?P=i)[ \t]+return MAGIC_NUMBER_DOES_NOT_MATCH\n"
+        r"(?P=i)read_next_int\(&version, binary_file\)\n"
+        r"(?:(?P=i)if version == CURRENT_VERSION:\n(?P=i)[ \t]+pass\n(?P=i)else:\n"
+        r"|(?P=i)if (?:not version == CURRENT_VERSION|version != CURRENT_VERSION):\n)"
+        r"(?P=i)[ \t]+fclose\(binary_file\)\n"
+        r"(?P=i)[ \t]+return VERSION_NUMBER_DOES_NOT_MATCH\n", re.M)
+    out["k_kernels"] = len(re.findall(r"^[ \t]+\w+ = fopen\(", code, re.M))
+    out["k_canonical_header_checks"] = len(hdr.findall(code))
+    # the names may not be assigned again after the check (`version = CURRENT_VERSION`, `magic_number = ...`)
+    if re.search(r"^[ \t]+(?:magic_number|version)\s*=(?!=)", code, re.M):
+        raise Unsupported("ndl_parallel.pyx: magic_number / version is assigned by a statement")
+    freads = re.findall(r"\bfread\(\s*\w+\s*,\s*([^,]+?)\s*,", code)
+    out["k_fread_widths"] = [_int_expr(ast.parse(w, mode="eval").body, {}) for w in freads]
+    caps = re.findall(r"^[ \t]+cdef unsigned int max_number_of_(?:cues|outcomes) = ([0-9]+)$", code, re.M)
+    if len(caps) != len(re.findall(r"^[ \t]+cdef [^\n]*\bmax_number_of_(?:cues|outcomes)\b", code, re.M)):
+        raise Unsupported("ndl_parallel.pyx: an id buffer capacity is not declared as `cdef unsigned int max_number_of_* = <int>`")
+    out["k_initial_caps"] = [int(c) for c in caps]
+    # Python reader: widths of every read() in read_binary_file, canonical header decision
+    fn = find_function(tree, "read_binary_file")
+    widths = []
+    for x in ast.walk(fn):
+        if isinstance(x, ast.Call) and isinstance(x.func, ast.Attribute) and x.func.attr == "read":
+            if len(x.args) != 1 or x.keywords:
+                raise Unsupported("read_binary_file: read() without an explicit size")
+            widths.append(_int_expr(x.args[0], {}))
+    out["py_read_widths"] = widths
+    canon = [ast.dump(st) for st in ast.parse(
+        "magic_number = to_integer(binary_file.read(4))\n"
+        "if not magic_number == MAGIC_NUMBER:\n    raise ValueError('Header does not match the magic number')\n"
+        "version = to_integer(binary_file.read(4))\n"
+        "if version == CURRENT_VERSION:\n    pass\nelse:\n    raise ValueError('Version is incorrectly specified')\n").body]
+
+    def unmsg(d):   # the text of the messages and the read widths (reported above) do not matter
+        return re.sub(r"Constant\(value=(?:'[^']*'|[0-9]+)\)", "Constant()", d)
+    withs = [x for x in fn.body if isinstance(x, ast.With)]
+    body = _body_without_docstring(fn)
+    ok = len(body) == 1 and len(withs) == 1 and [unmsg(ast.dump(st)) for st in withs[0].body[:4]] == [unmsg(c) for c in canon]
+    stores = [x.id for x in ast.walk(fn) if isinstance(x, ast.Name) and isinstance(x.ctx, ast.Store)
+              and x.id in ("magic_number", "version")]
+    out["py_reader_header_canonical"] = bool(ok and sorted(stores) == ["magic_number", "version"])
+    fn = find_function(tree, "to_bytes")
+    c = _body_without_docstring(fn)[0].value
+    out["shape_to_bytes_width"] = _int_expr(c.args[0], {})
+    return out
+
+
 def emit_fmt(pkg, lines, report):
-    name = "fmt_consts_src"
-    try:
-        c = translate_fmt(pkg)
-    except (Unsupported, SyntaxError, OSError, KeyError) as ex:
-        report[name] = {"translated": False, "reason": str(ex)}
-        lines += ["(* %s: NOT TRANSLATED: %s *)" % (name, str(ex).replace("*)", "* )")),
-                  "Definition %s_translated : bool := false." % name, ""]
-        return
-    report[name] = {"translated": True, "constants": c}
-    lines.append("(* preprocess.py / ndl_parallel.pyx / error_codes.pxd -> binary format constants *)")
-    for k, v in c.items():
-        if isinstance(v, bool):
-            lines.append("Definition fmt_%s_src : bool := %s." % (k, "true" if v else "false"))
-        else:
-            lines.append("Definition fmt_%s_src : Z := (%d)%%Z." % (k, v))
-    lines += ["Definition %s_translated : bool := true." % name, ""]
+    for name, fun, what in (("fmt_consts_src", translate_fmt, "binary format constants"),
+                            ("fmt_shape_src", translate_fmt_shape, "structure of the chunk readers")):
+        try:
+            c = fun(pkg)
+        except (Unsupported, SyntaxError, OSError, KeyError, IndexError, AttributeError) as ex:
+            report[name] = {"translated": False, "reason": str(ex)}
+            lines += ["(* %s: NOT TRANSLATED: %s *)" % (name, str(ex).replace("*)", "* )")),
+                      "Definition %s_translated : bool := false." % name, ""]
+            continue
+        report[name] = {"translated": True, "constants": c}
+        lines.append("(* preprocess.py / ndl_parallel.pyx / error_codes.pxd -> %s *)" % what)
+        for k, v in c.items():
+            if isinstance(v, bool):
+                lines.append("Definition fmt_%s_src : bool := %s." % (k, "true" if v else "false"))
+            elif isinstance(v, list):
+                lines.append("Definition fmt_%s_src : list Z := [%s]%%Z." % (k, "; ".join("(%d)" % x for x in v)))
+            else:
+                lines.append("Definition fmt_%s_src : Z := (%d)%%Z." % (k, v))
+        lines += ["Definition %s_translated : bool := true." % name, ""]
 
 
 def main():
